@@ -242,6 +242,25 @@ func (x *Exec) step(s *State, in ssa.Instruction) (cont bool) {
 				s.check(o, not(eq(b.S, "0")))
 			}
 		}
+		// slice == nil tests the backing array only (a nil slice has no array; the
+		// off/len words of a symbolic slice with a nil array carry no meaning):
+		// the same reading as `s == nil` in contracts
+		if (t.Op == token.EQL || t.Op == token.NEQ) && kindOf(a.T) == kSlice {
+			var other *Value
+			if c, ok := t.Y.(*ssa.Const); ok && c.IsNil() {
+				other = &a
+			} else if c, ok := t.X.(*ssa.Const); ok && c.IsNil() {
+				other = &b
+			}
+			if other != nil {
+				r := nilTest(*other)
+				if t.Op == token.NEQ {
+					r = not(r)
+				}
+				s.env[t] = Value{T: t.Type(), S: r}
+				break
+			}
+		}
 		s.env[t] = binop(t.Op, a, b, t.Type())
 	case *ssa.Store:
 		p := x.val(s, t.Addr)
@@ -511,6 +530,7 @@ func (x *Exec) sliceOp(s *State, t *ssa.Slice) {
 		o := x.ob("bounds", x.sites[t], "slice bounds out of range (capacity abstracted to len)", t)
 		s.check(o, and(app("<=", "0", lo), app("<=", lo, hi), app("<=", hi, xv.F[2].S)))
 		s.env[t] = sliceVal(t.Type(), xv.F[0].S, app("+", xv.F[1].S, lo), app("-", hi, lo))
+		x.subBytes(s, xv, s.env[t], lo, app("-", hi, lo))
 	case kRef: // pointer to array
 		pt, ok := xv.T.Underlying().(*types.Pointer)
 		if !ok || xv.LV != nil {
@@ -527,6 +547,7 @@ func (x *Exec) sliceOp(s *State, t *ssa.Slice) {
 			s.check(o, and(app("<=", "0", lo), app("<=", lo, hi), app("<=", hi, n)))
 		}
 		s.env[t] = sliceVal(t.Type(), xv.S, lo, app("-", hi, lo))
+		x.subBytes(s, sliceVal(t.Type(), xv.S, "0", n), s.env[t], lo, app("-", hi, lo))
 	default:
 		panic(unsupported("slice of " + typeKey(xv.T)))
 	}
@@ -916,4 +937,20 @@ func (x *Exec) debugRef(s *State, t *ssa.DebugRef) {
 		}
 	}
 	bindStored()
+}
+
+
+// subBytes: the content string of a sub-slice of a byte slice is the
+// corresponding substring of the parent's content string (a fact about the
+// abstraction bytes_str, which stands for the actual bytes).
+func (x *Exec) subBytes(s *State, parent, child Value, lo, n string) {
+	st, ok := child.T.Underlying().(*types.Slice)
+	if !ok {
+		return
+	}
+	if b, ok := st.Elem().Underlying().(*types.Basic); !ok || (b.Kind() != types.Uint8 && b.Kind() != types.Byte) {
+		return
+	}
+	parent.T = child.T
+	s.assume(eq(x.bytesStr(s, s.heap, child), app("str.substr", x.bytesStr(s, s.heap, parent), lo, n)))
 }
